@@ -251,6 +251,16 @@ def gen_dense_kernel(isa, rng, n, shape=None):
         k = 6
         for j in range(n):
             L.append(g.gadd(j % k, (j - 1) % k))
+    elif shape == "layers2":
+        # width 2: about 2^(n/2) paths per root — many, yet enumerable
+        w = 2
+        layers = max(2, n // w)
+        for l in range(layers):
+            for i in range(w):
+                d = (l % 2) * w + i
+                a = ((l + 1) % 2) * w + i
+                b = ((l + 1) % 2) * w + (i + 1) % w
+                L.append(g.op2(d, a, b, which=0))
     else:  # layered DAG: width w, every node of a layer reads two nodes of the previous layer
         w = rng.randint(2, 4)
         layers = max(2, n // w)
